@@ -38,6 +38,12 @@ type c15Comp struct {
 	Up    bool `short:"A"`
 }
 
+type c15Env struct {
+	A int `long:"ea" env:"C15_A"`
+	B int `long:"eb" env:"C15_B"`
+	C int `long:"ec" env:"C15_C"`
+}
+
 type c15Req struct {
 	A bool `long:"aa" required:"true"`
 	B bool `short:"b" required:"true"`
@@ -162,6 +168,12 @@ func c15Run(v *V, scen int, keys []string, vals []string) string {
 		var b bytes.Buffer
 		NewIniParser(p).Write(&b, IniIncludeDefaults)
 		return b.String()
+	case 11: // several environment defaults that do not convert: which one the error names
+		d := &c15Env{}
+		p := NewNamedParser("prog", None)
+		p.AddGroup("Application Options", "", d)
+		_, err := p.ParseArgs(nil)
+		return vErrString(err)
 	case 8: // an INI text with several unknown sections: which one the error names
 		d := &c15Sec{}
 		p := NewNamedParser("prog", None)
@@ -214,6 +226,11 @@ func H_C15_twice(v *V) {
 	}
 	if scen == 9 {
 		v.Setenv("GO_FLAGS_COMPLETION", "1")
+	}
+	if scen == 11 {
+		for i, k := range keys {
+			v.Setenv([]string{"C15_A", "C15_B", "C15_C"}[i], "x"+k)
+		}
 	}
 	v.Setenv("SOURCE_DATE_EPOCH", "86400")
 	v.MapOrder(false)
